@@ -21,6 +21,9 @@
   line of 1 MiB or more).
 -/
 import ClairModel.Proofs.JsonBlob
+import ClairModel.Proofs.JsonBlobLoad
+import ClairModel.Proofs.JsonBlobFault
+import ClairModel.Proofs.JsonBlobImport
 import ClairModel.Gen.OfflineImport
 
 -- every variable of a property statement is bound explicitly: a misspelt name is an error, not a new variable
@@ -56,6 +59,20 @@ theorem delta_records_like_update (w : World) (u f : String) (recs : List Rec) (
     step w (.delta u f recs del cands) = step w (.record .vuln u f recs cands) := by
   simp [step, Store.recordDelta]
 
+/-- A recording call that fails before it takes the lock — `diskBuf` cannot
+    create its temp file, or the per-update encoder rejects a record — returns
+    an error and changes nothing: the map, the latest refs and the output are as
+    before.  (Such calls are part of `RecOnly` histories and are not among the
+    `returned` updates, so every theorem below about recording histories holds
+    with failed calls anywhere in the history.) -/
+theorem failed_recording_changes_nothing (w : World) (k : Kind) (u f : String) (recs : List Rec)
+    (ops : List Op) :
+    step w (.failed k u f recs) = (w, .err) ∧
+    returned w (.failed k u f recs :: ops) = returned w ops ∧
+    Sm.run step w (.failed k u f recs :: ops) = Sm.run step w ops := by
+  refine ⟨rfl, ?_, rfl⟩
+  simp [returned, step, Op.update?]
+
 /-! ### Store -/
 
 /-- `Store.Store` returns nil exactly when every line of every entry fits the
@@ -77,6 +94,72 @@ theorem store_order_exists (ops : List Op) :
     ∃ order s' lines ok, (Sm.run step World.init ops).store.store order = some (s', lines, ok) :=
   JsonBlob.store_order_exists ops
 
+/-! ### Store when it fails
+
+  `storeOutF faults order` is `Store.Store` when disk buffers cannot be read
+  back: the fault `(ref, k)` makes the buffer of the entry `ref` fail after `k`
+  lines (closed or truncated file, I/O error).  A line of 1 MiB or more takes
+  the same path in the code (`MarshalJSON` returns the scanner's error). -/
+
+/-- Without faults this is the `Store.Store` of the theorems above. -/
+theorem store_without_faults (s : Store) (order : List Nat) : s.storeF order [] = s.store order :=
+  storeF_nil s order
+
+/-- `Store.Store` returns nil iff every visited entry is intact: all its lines
+    fit the scanner buffer and its disk buffer yields all of them. -/
+theorem store_ok_iff_all_entries_intact (faults : List (Nat × Nat)) (order : List Entry) :
+    (storeOutF faults order).2.2 = true ↔ ∀ e ∈ order, e.Intact (cutOf faults e.ref) :=
+  storeOutF_ok_iff faults order
+
+/-- What a failing `Store.Store` has done when it returns: with the map visited
+    in the order `pre ++ e :: post`, every entry of `pre` is written completely,
+    the failing entry `e` is written up to (not including) its first line that
+    is too long or unreadable — `j` lines, fewer than it has — nothing of `post`
+    is written, and the map holds exactly `post`: `e` is deleted although the
+    rest of it was never written. -/
+theorem store_failure_writes_prefix_and_deletes (faults : List (Nat × Nat)) (order : List Entry)
+    (h : (storeOutF faults order).2.2 = false) :
+    ∃ pre e post j, order = pre ++ e :: post ∧
+      (∀ x ∈ pre, x.Intact (cutOf faults x.ref)) ∧ ¬ e.Intact (cutOf faults e.ref) ∧
+      j < e.recs.length ∧ e.written (cutOf faults e.ref) = e.recs.take j ∧
+      storeOutF faults order =
+        (pre.flatMap (fun x => x.recs.map (mkLine x)) ++ (e.recs.take j).map (mkLine e), post, false) := by
+  obtain ⟨pre, e, post, j, h1, h2, h3, h4, h5, h6⟩ := storeOutF_fail faults order h
+  refine ⟨pre, e, post, j, h1, h2, h3, h4, h5, ?_⟩
+  rw [h6, render_append, render_singleton_truncated]
+  rfl
+
+/-- After a failed `Store`, a second `Store` of what is left (any map order
+    `post'`, nothing damaged, every line fits) succeeds, and loading the two
+    outputs yields — WITHOUT error — every entry completely and in the order
+    written, except the entry the first call failed on: it comes back with only
+    its first `j` records, and not at all when `j = 0`.  So the only trace of
+    the failure is `Store`'s return value; the file loads as if it were whole,
+    and the unwritten records of that one entry are gone from the store too. -/
+theorem failed_store_retry_load (faults : List (Nat × Nat)) (order : List Entry)
+    (hd : order.Pairwise (fun a b => a.ref ≠ b.ref)) (h0 : ∀ e ∈ order, e.ref ≠ 0)
+    (hfail : (storeOutF faults order).2.2 = false)
+    (post' : List Entry) (hperm : post'.Perm (storeOutF faults order).2.1)
+    (hfit : ∀ e ∈ post', ∀ r ∈ e.recs, r.fits = true) :
+    ∃ pre e post j, order = pre ++ e :: post ∧ (storeOutF faults order).2.1 = post ∧ j < e.recs.length ∧
+      e.written (cutOf faults e.ref) = e.recs.take j ∧
+      (storeOut post').2.2 = true ∧
+      loadAll ((storeOutF faults order).1 ++ (storeOut post').1) =
+        (((pre ++ [e.truncated j] ++ post').filter nonEmpty).map (fun x => some x.loaded), .ok) := by
+  obtain ⟨pre, e, post, j, h1, h2, h3, h4, h5, h6⟩ :=
+    fail_retry_load faults order hd h0 hfail post' hperm hfit
+  exact ⟨pre, e, post, j, h1, h2, h3, h4, by rw [h5], h6⟩
+
+/-- A concrete instance: three records, the disk buffer fails after the first.
+    `Store` returns an error, the entry is gone from the map, and the file
+    loads — cleanly — as an update of one record. -/
+theorem failed_store_truncates_silently_counterexample :
+    let ops : List Op := [.record .vuln "a" "fa" [⟨1, 10⟩, ⟨2, 10⟩, ⟨3, 10⟩] [0]]
+    let w := Sm.run step World.init ops
+    ∃ s' lines, w.store.storeF [1] [(1, 1)] = some (s', lines, false) ∧ s'.entries = [] ∧
+      loadAll lines = ([some { updater := "a", fp := "fa", vuln := [⟨1, 10⟩] }], .ok) := by
+  refine ⟨_, _, rfl, rfl, by decide⟩
+
 /-! ### Load -/
 
 /-- The loader on a file made of blocks of consecutive lines, one non-empty
@@ -97,6 +180,75 @@ theorem next_true_entry_nonnil (l : Loader) (h : l.step.2 = .yes) : l.step.1.e.i
 /-- No file makes the iteration hand out a nil entry. -/
 theorem load_never_yields_nil (lines : List Line) : ∀ x ∈ (loadAll lines).1, x.isSome = true :=
   drain_all_some _ _
+
+/-- ANY file.  What `for l.Next() { l.Entry() }; l.Err()` yields on an arbitrary
+    sequence of lines (interleaved refs, Nil refs, unknown Kinds, payloads that
+    do not unmarshal, lines that are not a `diskEntry`) is `loadSpec`:
+    * leading lines with ref uuid.Nil and an unknown Kind are ignored;
+    * if the next line has ref uuid.Nil and a record payload, `Next` panics
+      (`l.next` is nil when the record is appended);
+    * otherwise the lines before the first bad one are cut into maximal runs of
+      consecutive lines with the same ref, one entry per run (updater and
+      fingerprint of the run's FIRST line; the run's vulnerability payloads in
+      order; its enrichment payloads in order — an unknown Kind adds nothing);
+    * at the end of the file every run is reported and `Err()` is nil; at a
+      line that does not decode every run is reported — the unfinished one as
+      if complete — and `Err()` is the error; at a payload that does not
+      unmarshal the last run is NOT reported and `Err()` is the error. -/
+theorem load_any_file (lines : List Line) : loadAll lines = loadSpec lines :=
+  loadAll_eq_spec lines
+
+/-- `runs` is a partition into maximal runs: concatenated they are the file,
+    each is non-empty with one ref throughout, and neighbouring runs differ in
+    their ref. -/
+theorem runs_partition_maximal (lines : List Line) :
+    (runs lines).flatten = lines ∧
+    (∀ r ∈ runs lines, ∃ f tl, r = f :: tl ∧ ∀ l ∈ tl, l.ref = f.ref) ∧
+    (∀ pre a b post, runs lines = pre ++ a :: b :: post →
+      a.head?.map (·.ref) ≠ b.head?.map (·.ref)) :=
+  ⟨runs_flatten lines, runs_uniform lines, runs_maximal lines⟩
+
+/-- A file of decodable lines whose first ref is not Nil: exactly one entry per
+    maximal run, no error.  Lines of one ref that are not adjacent are NOT put
+    together (`A B A` gives three entries): grouping is by neighbourhood only,
+    which is why `refs_distinct` and the block shape of what `Store` writes
+    matter. -/
+theorem load_good_file (ln : Line) (rest : List Line) (hg : ∀ l ∈ ln :: rest, l.body.good = true)
+    (h0 : ln.ref ≠ 0) :
+    loadAll (ln :: rest) = (((runs (ln :: rest)).filterMap entryOfRun).map some, .ok) :=
+  loadAll_good ln rest hg h0
+
+/-- `A B A`: three entries, the first and the third carrying the same ref. -/
+example :
+    loadAll [⟨1, "a", "f", .vuln ⟨0, 0⟩⟩, ⟨2, "b", "f", .vuln ⟨1, 0⟩⟩, ⟨1, "a", "f", .vuln ⟨2, 0⟩⟩] =
+      ([some { updater := "a", fp := "f", vuln := [⟨0, 0⟩] },
+        some { updater := "b", fp := "f", vuln := [⟨1, 0⟩] },
+        some { updater := "a", fp := "f", vuln := [⟨2, 0⟩] }], .ok) := by
+  decide
+
+/-- The only way to make `Next` panic: the first line that is not ignored has
+    ref uuid.Nil and carries a record.  `Store` never writes such a file
+    (`refs_distinct`: no key of the map is Nil). -/
+theorem load_panics_iff (lines : List Line) :
+    (loadAll lines).2 = .panic ↔
+      ∃ ln rest, lines.dropWhile skipped = ln :: rest ∧ ln.ref = 0 ∧ ln.body.isRec = true := by
+  rw [loadAll_eq_spec, loadSpec]
+  cases hd : lines.dropWhile skipped with
+  | nil => simp
+  | cons ln rest =>
+    simp only
+    by_cases h : ln.ref = 0 ∧ ln.body.isRec = true
+    · simp only [h, and_self, if_true, true_iff]
+      exact ⟨ln, rest, rfl, h.1, h.2⟩
+    · simp only [h, if_false]
+      constructor
+      · intro hp
+        exfalso
+        revert hp
+        cases stopOf (ln :: rest) <;> simp [finish]
+      · rintro ⟨a, b, hab, h3, h4⟩
+        cases hab
+        exact absurd ⟨h3, h4⟩ h
 
 /-- An empty recording loads as no entries: whatever order is given, `Store` on
     a store nothing was recorded into writes nothing, and the empty file yields
@@ -221,22 +373,22 @@ theorem multi_flush_roundtrip_partial (ops : List Op) (hfit : FitOps ops)
     `Store` call empties; a uuid drawn again afterwards makes the new entry's
     lines continue the old block and the loader merges two updates into one. -/
 theorem uuid_reuse_across_flush_merges_counterexample :
-    let ops : List Op := [.record .vuln "a" "fa" [⟨1, 10⟩] [0], .store [1],
-                          .record .vuln "b" "fb" [⟨2, 10⟩] [0], .store [1]]
+    let ops : List Op := [.record .vuln "a" "fa" [⟨1, 10⟩] [0], .store [1] [],
+                          .record .vuln "b" "fb" [⟨2, 10⟩] [0], .store [1] []]
     loadAll (Sm.run step World.init ops).out =
       ([some { updater := "a", fp := "fa", vuln := [⟨1, 10⟩, ⟨2, 10⟩] }], .ok) := by
   decide
 
 /-- `NoReuse` and `FitOps` are satisfiable by a history with two flushes. -/
 example :
-    let ops : List Op := [.record .vuln "a" "fa" [⟨1, 10⟩] [0], .store [1],
-                          .record .enrich "b" "fb" [⟨2, 10⟩] [1], .store [2]]
+    let ops : List Op := [.record .vuln "a" "fa" [⟨1, 10⟩] [0], .store [1] [],
+                          .record .enrich "b" "fb" [⟨2, 10⟩] [1], .store [2] []]
     NoReuse World.init ops ∧
     loadAll (Sm.run step World.init ops).out =
       ([some { updater := "a", fp := "fa", vuln := [⟨1, 10⟩] },
         some { updater := "b", fp := "fb", enrich := [⟨2, 10⟩] }], .ok) := by
   refine ⟨?_, by decide⟩
-  simp [NoReuse, step, Store.record, Store.store, pickRef, mkUuid, Store.hasRef, arrange, storeOut,
+  simp [NoReuse, step, Store.record, Store.storeF, storeOutF, emitCut, cutOf, pickRef, mkUuid, Store.hasRef, arrange,
     emitRecs, Rec.fits, maxLine, mkLine, World.init]
 
 /-! ### OfflineImport's loop
@@ -295,5 +447,56 @@ theorem import_never_dereferences_nil (known : String → List String) (lines : 
       have := ih (fun y hy => h y (by simp [hy]))
       simp only [importAll, Option.isSome_map]
       exact this
+
+/-- The calls are made in the order the entries are read; `UpdateEnrichments`
+    comes before `UpdateVulnerabilities` for an entry that has both kinds of
+    records (a hand-made file; `Store` never writes one). -/
+theorem import_in_file_order (known : String → List String) (a b : List (Option LEntry))
+    (ca cb : List ImportCall) (ha : importAll known a = some ca) (hb : importAll known b = some cb) :
+    importAll known (a ++ b) = some (ca ++ cb) ∧
+    ∀ e : LEntry, e.fp ∉ known e.updater → e.vuln ≠ [] → e.enrich ≠ [] →
+      importEntry known e = [.enrichments e.updater e.fp e.enrich, .vulnerabilities e.updater e.fp e.vuln] := by
+  refine ⟨importAll_append known a b ca cb ha hb, ?_⟩
+  intro e h hv he
+  simp [importEntry, h, hv, he]
+
+/-- End to end: record any history (failed calls included), `Store` (any map
+    order, every line fits), `Load`, and run `OfflineImport`'s loop against a
+    matcher store whose known fingerprints are `known`: the loop makes exactly
+    one store call — `UpdateVulnerabilities` for a vulnerability or delta
+    update, `UpdateEnrichments` for an enrichment update, with the update's
+    name, fingerprint and records in order — for every recorded update that has
+    at least one record and whose fingerprint is not already known for its
+    updater name, in the order written; and no other call.  With an empty
+    matcher store (`known = fun _ => []`) nothing is skipped. -/
+theorem offline_export_then_import (ops : List Op) (hrec : RecOnly ops) (order : List Nat)
+    (hfit : ∀ u ∈ returned World.init ops, ∀ r ∈ u.recs, r.fits = true)
+    (s' : Store) (lines : List Line) (ok : Bool)
+    (hst : (Sm.run step World.init ops).store.store order = some (s', lines, ok))
+    (known : String → List String) :
+    ∃ L : List Update, L.Perm ((returned World.init ops).filter fun u => !u.recs.isEmpty) ∧
+      importAll known (loadAll lines).1 = some ((L.filter (Update.fresh known)).map Update.call) ∧
+      (L.filter (Update.fresh fun _ => [])) = L := by
+  obtain ⟨_, _, L, hp, hl⟩ := store_load_general ops hrec order hfit s' lines ok hst
+  refine ⟨L, hp, ?_, ?_⟩
+  · rw [hl]
+    apply importAll_loaded
+    intro u hu
+    have := (List.mem_filter.1 (hp.mem_iff.1 hu)).2
+    simpa using this
+  · apply List.filter_eq_self.2
+    intro u _
+    simp [Update.fresh]
+
+/-- The skip looks only at the updater NAME and the fingerprint, and the known
+    operations are the vulnerability ones: an enrichment update is skipped when
+    a vulnerability operation of the same name carries its fingerprint, and is
+    never skipped on account of an earlier import of itself. -/
+theorem import_skip_ignores_kind (known : String → List String) (u : Update) (hne : u.recs ≠ []) :
+    importEntry known u.loaded = (if (known u.updater).contains u.fp then [] else [u.call]) := by
+  rw [importEntry_loaded known u hne, Update.fresh]
+  by_cases h : (known u.updater).contains u.fp = true
+  · rw [h]; rfl
+  · rw [Bool.not_eq_true] at h; rw [h]; rfl
 
 end ClairModel.Props.C16
